@@ -119,10 +119,12 @@ theorem turn_balanced (k : Kind) (w : Wire) (sz : Sizes) (i : Nat) (t : Turn) (l
       · split
         · exact key _ (Or.inl rfl)
         · split
-          · rename_i h0
-            have := key [] (Or.inr ⟨rfl, h0⟩)
-            simpa using this
           · exact key _ (Or.inl rfl)
+          · split
+            · rename_i h0
+              have := key [] (Or.inr ⟨rfl, h0⟩)
+              simpa using this
+            · exact key _ (Or.inl rfl)
     | ok =>
       simp only [if_true]
       have key : ∀ tail : List Ev, (tail = (if t.emits ≥ 1 then [Ev.rel (.emit i 0)] else []) ∨ (tail = [] ∧ t.emits = 0)) →
@@ -147,10 +149,12 @@ theorem turn_balanced (k : Kind) (w : Wire) (sz : Sizes) (i : Nat) (t : Turn) (l
       · split
         · exact key _ (Or.inl rfl)
         · split
-          · rename_i h0
-            have := key [] (Or.inr ⟨rfl, h0⟩)
-            simpa using this
           · exact key _ (Or.inl rfl)
+          · split
+            · rename_i h0
+              have := key [] (Or.inr ⟨rfl, h0⟩)
+              simpa using this
+            · exact key _ (Or.inl rfl)
 
 /-- **stream_balanced**: a whole stream leaves the ledger as it found it, and every sample any of
 its handlers takes is the starting level plus at most that turn's own cast batch — nothing
@@ -194,11 +198,14 @@ theorem balanced (c : Call) :
     ∃ s, run [] (callEvents c) = some ([], s) ∧
       match c with
       | .unary _ _ => ∀ x ∈ s, x = 0
+      | .unaryExt _ _ => ∀ x ∈ s, x = 0
       | .stream _ _ sz _ => ∀ x ∈ s, x = 0 ∨ x = sz.c
       | .castInput _ _ sz => ∀ x ∈ s, x = sz.e ∨ x = sz.c + sz.e := by
   cases c with
   | unary m sz =>
     cases m <;> simp [callEvents, run, release, outstanding]
+  | unaryExt mode sz =>
+    cases mode <;> simp [callEvents, run, release, outstanding]
   | stream k w sz turns =>
     obtain ⟨s, hs, hb⟩ := stream_balanced k w sz turns 0 []
     exact ⟨s, hs, by simpa [outstanding] using hb⟩
@@ -213,14 +220,24 @@ def sz0 : Sizes := { r := 256, e := 128, c := 64 }
 /-- an exchange with casts: emit, refused double emit, error after emit, and a turn that is never
 reached -/
 example : run [] (callEvents (.stream .xch .i32 sz0
-    [⟨1, .ok, false⟩, ⟨3, .ok, false⟩, ⟨1, .err, false⟩])) = some ([], [64, 64]) := by decide
+    [⟨1, .ok, false, false, false⟩, ⟨3, .ok, false, false, false⟩, ⟨1, .err, false, false, false⟩])) = some ([], [64, 64]) := by decide
 
 example : run [] (callEvents (.stream .prod .i64 sz0
-    [⟨1, .ok, false⟩, ⟨0, .ok, false⟩])) = some ([], [0, 0]) := by decide
+    [⟨1, .ok, false, false, false⟩, ⟨0, .ok, false, false, false⟩])) = some ([], [0, 0]) := by decide
 
 /-- the ledger does notice a missing release: drop the collector's release and bytes stay -/
 example : run [] [.sample, .acq (.emit 0 0) 128] = some ([(.emit 0 0, 128)], [0]) := by decide
 example : run [] [.rel (.cast 0)] = none := by decide
+
+/-- the pipe breaks while turn 1's output is written: the turn still releases everything, turn 2
+never runs -/
+example : run [] (callEvents (.stream .xch .i32 sz0
+    [⟨1, .ok, false, false, false⟩, ⟨1, .ok, false, true, false⟩, ⟨1, .ok, false, false, false⟩])) =
+    some ([], [64, 64]) := by decide
+
+/-- external cap: refused before the upload, and uploaded-then-refused -/
+example : run [] (callEvents (.unaryExt .refusedPre sz0)) = some ([], [0]) := by decide
+example : run [] (callEvents (.unaryExt .refusedPost sz0)) = some ([], [0]) := by decide
 
 /-- a two-column input whose second column fails the cast: nothing stays behind -/
 example : run [] (callEvents (.castInput .two true sz0)) = some ([], [128]) := by decide
